@@ -135,6 +135,85 @@ def make_add_measures(q, ts0, ts1, existing, pin_t1=False):
     return h
 
 
+def make_tie_notes(q0, q1, ts=(4, 4), nbars=3, slur=False):
+    """tie_notes on a part with explicit measures (divisions q0 in the first bar, q1 from the second barline on) and
+    one note with symbolic onset and duration (realised: the duration estimator searches tables with dur/div) next to a
+    fixed note in another voice."""
+    B0 = ts[0] * 4 * q0 // ts[1]
+    B1 = ts[0] * 4 * q1 // ts[1]
+    total = B0 + (nbars - 1) * B1
+
+    def h(on: int, dur: int):
+        import partitura.score as S
+        from partitura.utils import music as M
+        from engine import sym
+
+        require(0 <= on < B0 + B1)
+        require(1 <= dur)
+        require(on + dur <= total)
+        on, dur = int(sym.realize(on)), int(sym.realize(dur))
+        part = S.Part("P", quarter_duration=q0)
+        part.add(S.TimeSignature(*ts), 0)
+        if q1 != q0:
+            part.set_quarter_duration(B0, q1)
+        bars = [(0, B0)] + [(B0 + i * B1, B0 + (i + 1) * B1) for i in range(nbars - 1)]
+        for i, (a, b) in enumerate(bars):
+            part.add(S.Measure(number=i + 1), a, b)
+        n = S.Note("F", 4, 1, id="n1", voice=1, staff=1)  # ids of the form n<k>: derived ids append a letter
+        part.add(n, on, on + dur)
+        other = S.Note("C", 3, None, id="n2", voice=2, staff=2, symbolic_duration={"type": "quarter"})
+        part.add(other, 0, q0)
+        sl = None
+        if slur:
+            sl = S.Slur(start_note=other, end_note=n)
+            part.add(sl, other.start.t, n.end.t)
+        before = [(int(r["onset_div"]), int(r["duration_div"]), int(r["pitch"])) for r in part.note_array()]
+        must_not_raise(S.tie_notes, part, _what="tie_notes")
+        after = [(int(r["onset_div"]), int(r["duration_div"]), int(r["pitch"])) for r in part.note_array()]
+        check(before == after, "tie_notes changed the sounding notes", before, after)
+        notes = list(part.iter_all(S.Note))
+        ids = [x.id for x in notes]
+        check(len(set(ids)) == len(ids), "note ids are not unique after tying", ids)
+        qmap = part.quarter_duration_map
+        chain = [x for x in notes if x.step == "F"]
+        chain.sort(key=lambda x: x.start.t)
+        check(chain and chain[0] is n, "the original note is not the first of its tie chain")
+        check(chain[0].start.t == on and chain[-1].end.t == on + dur, "the tie chain does not cover the original note",
+              [(x.start.t, x.end.t) for x in chain])
+        check(chain[0].tie_prev is None and chain[-1].tie_next is None, "open tie at the chain ends")
+        for a, b in zip(chain[:-1], chain[1:]):
+            check(a.end.t == b.start.t, "tie chain is not contiguous", a.end.t, b.start.t)
+            check(a.tie_next is b and b.tie_prev is a, "tie links do not follow the chain")
+            check((b.step, b.alter, b.octave, b.voice, b.staff) == (n.step, n.alter, n.octave, n.voice, n.staff),
+                  "tied piece differs in pitch, voice or staff")
+        for x in chain:
+            inside = [m for (m) in bars if m[0] <= x.start.t and x.end.t <= m[1]]
+            check(len(inside) >= 1, "a note crosses a barline after tie_notes", x.start.t, x.end.t)
+            sd = x.symbolic_duration
+            if sd:
+                div = int(qmap(x.start.t))
+                check(div == (q0 if x.start.t < B0 else q1), "divisions in force", div)
+                back = M.symbolic_to_numeric_duration(sd, div)
+                d = back - (x.end.t - x.start.t)
+                d = d if d >= 0 else -d
+                check(d <= 1e-6, "the symbolic duration assigned by tie_notes does not evaluate to the note's numeric duration",
+                      x.start.t, x.end.t, div, sd, back)
+        if sl is not None:
+            check(sl.end_note is chain[-1], "a slur ending on the note does not end on the last tied piece")
+            check(sl.start_note is other, "slur start changed")
+        return [[int(x.start.t), int(x.end.t), M.format_symbolic_duration(x.symbolic_duration) if x.symbolic_duration else ""] for x in chain]
+
+    return h
+
+
+def _tn_inst(tier):
+    out = [{"q0": 2, "q1": 2}, {"q0": 2, "q1": 4, "slur": True}]
+    if tier != "quick":
+        out += [{"q0": 4, "q1": 4, "slur": True}, {"q0": 4, "q1": 2}, {"q0": 3, "q1": 6, "ts": [3, 4]}, {"q0": 4, "q1": 4, "ts": [6, 8], "nbars": 4},
+                {"q0": 1, "q1": 1, "nbars": 4}]
+    return out
+
+
 DIVS_Q = [1, 2, 3, 4, 6, 8, 12, 16, 24, 48, 96, 480]
 DIVS_T = [1, 2, 3, 4, 5, 6, 8, 10, 12, 16, 24, 32, 48, 96, 120, 240, 480, 960]
 
@@ -165,5 +244,12 @@ HARNESSES = [
       functions=["score.add_measures", "Part.beat_map", "Part.inv_beat_map", "Part.iter_all", "Part.add"],
       bounds="timeline [0,end] with symbolic end <= 3-5 bars, optional second time signature at a symbolic time, "
              "optional existing measure at a symbolic position (not straddling the change); listed meters/divisions",
-      outside="tie_notes / fill_rests / find_tuplets / sanitize_part (not encoded); more than two signatures"),
+      outside="fill_rests / find_tuplets / sanitize_part (not encoded); more than two signatures"),
+    H("tie_notes", make_tie_notes, _tn_inst, models=[], budget={"quick": 300, "thorough": 1200}, reals_only=False,
+      functions=["score.tie_notes", "score.split_note", "music.estimate_symbolic_duration", "music.find_tie_split",
+                 "Part.add", "Part.remove", "Part.note_array"],
+      bounds="3-4 explicit measures, divisions q0 in the first bar and q1 afterwards (change at the barline), one note with "
+             "symbolic onset in the first two bars and symbolic duration up to the end of the part (realised: the solver "
+             "enumerates the grid), a fixed note in a second voice, optional slur ending on the note",
+      outside="divisions changing inside a measure, chords, grace notes, several notes needing ties at once"),
 ]
